@@ -140,6 +140,7 @@ Section Steps.
     (forall z, FM (- z) = FM z) -> n <= Z.of_nat fuel ->
     In e EO -> PO (esrc e) -> F (esrc e) <> eslot e ->
     exists p', find_prev FM fuel (- F (esrc e)) (eslot e) = Some p' /\ 0 < Z.abs p' < n /\
+      Z.abs p' <> esrc e /\
       rsimF n F T (upd (upd FM (Z.abs p') (FM (eslot e))) (esrc e) (FM (esrc e) - 1)) TM
             nodes PO PI ER (remE (eslot e) EO) EI fl cnt.
   Proof.
@@ -149,6 +150,8 @@ Section Steps.
     destruct (half_unlink_inner n esrc F FM nodes PO ER EO e fuel) as [p' [Hf [Hp Hhalf]]]; try assumption.
     exists p'. split; [assumption|]. split.
     { apply (used_range n nodes ER); [assumption|right; assumption]. }
+    split.
+    { intros E0. apply (b_disj _ _ _ R2 _ Hs). rewrite <- E0. assumption. }
     constructor; try assumption.
     eapply freeS_frame; [exact R2| |exact R5]. intros j Hj.
     assert (j <> esrc e) by (intros ->; apply Hj; left; assumption).
@@ -160,6 +163,7 @@ Section Steps.
     (forall z, TM (- z) = TM z) -> n <= Z.of_nat fuel ->
     In e EI -> PI (etgt e) -> T (etgt e) <> eslot e ->
     exists p', find_prev TM fuel (- T (etgt e)) (eslot e) = Some p' /\ 0 < Z.abs p' < n /\
+      Z.abs p' <> etgt e /\
       rsimF n F T FM (upd (upd TM (Z.abs p') (TM (eslot e))) (etgt e) (TM (etgt e) - 1))
             nodes PO PI ER EO (remE (eslot e) EI) fl cnt.
   Proof.
@@ -169,6 +173,8 @@ Section Steps.
     destruct (half_unlink_inner n etgt T TM nodes PI ER EI e fuel) as [p' [Hf [Hp Hhalf]]]; try assumption.
     exists p'. split; [assumption|]. split.
     { apply (used_range n nodes ER); [assumption|right; assumption]. }
+    split.
+    { intros E0. apply (b_disj _ _ _ R2 _ Ht). rewrite <- E0. assumption. }
     constructor; try assumption.
     eapply freeS_frame; [exact R2| |exact R5]. intros j Hj.
     assert (j <> etgt e) by (intros ->; apply Hj; left; assumption).
